@@ -153,6 +153,8 @@ def main():
     mck, mcn, mcd = (ALL, 3, 3) if thorough else (CORE, 3, 3)
     f_mc = pool.submit(vlib.tlc, MODULE, "mc.cfg", files={"mc.cfg": cfg(MODULE + "_mc.cfg", mck, mcn, mcd)},
                        workers=6, timeout=tlc_timeout, xmx="8g")
+    f_mc4 = pool.submit(vlib.tlc, MODULE, "mc4.cfg", files={"mc4.cfg": cfg(MODULE + "_mc.cfg", SMALL, 4, 4)},
+                        workers=4, timeout=tlc_timeout, xmx="8g") if thorough else None
     f_neg = pool.submit(vlib.tlc, MODULE, "neg.cfg", files={"neg.cfg": cfg(MODULE + "_neg.cfg", CORE, 3, 3)},
                         workers=2, timeout=tlc_timeout)
     f_old = pool.submit(vlib.tlc, MODULE, "old.cfg", files={"old.cfg": cfg(MODULE + "_ascoded.cfg", CORE, 3, 3)},
@@ -166,6 +168,11 @@ def main():
     if not mc.ok:
         raise vlib.InfraError("repair design does not satisfy ImplEqualsIdeal (%s): the model is wrong" % mc.violated)
     ck.add_tlc(mc, "RenderCtxChildren_mc (all repaired) kinds=%d MaxNodes=%d" % (len(mck), mcn))
+    if f_mc4 is not None:
+        mc4 = f_mc4.result()
+        if not mc4.ok:
+            raise vlib.InfraError("repair design does not satisfy ImplEqualsIdeal on the 4-call trees (%s)" % mc4.violated)
+        ck.add_tlc(mc4, "RenderCtxChildren_mc (all repaired) kinds=%d MaxNodes=4" % len(SMALL))
     neg = f_neg.result()
     if neg.violated != "ImplEqualsIdeal":
         raise vlib.InfraError("negative config (generated callees do not clear the slot) was not rejected")
